@@ -1,4 +1,10 @@
 import PPLV.PolyOps.ProofsAffineEx
+import PPLV.PolyOps.ProofsDimsEx
+import PPLV.PolyOps.ProofsLatticeEx
+import PPLV.PolyOps.ProofsLattice12
+import PPLV.PolyOps.ProofsLattice13
+import PPLV.PolyOps.ProofsLattice14
+import PPLV.PolyOps.ProofsLattice15
 
 /-!
 # C02 stage 2 — the row-level IMPLEMENTATIONS of the Polyhedron operators compute the documented sets
@@ -171,5 +177,286 @@ theorem strong_normalize_rows (nnc : Bool) (n : Nat) (rows : List Row) :
   ⟨kitC_strongNormalize nnc rows, kit_strongNormalize nnc n rows⟩
 
 example : (⟨true, 4, [-2, 6], 0⟩ : Row).strongNormalize = ⟨true, -2, [1, -3], 0⟩ := by decide
+
+/-! ## dimensions (Polyhedron_chdims.cc, Polyhedron_templates.hh) -/
+
+/-- `add_space_dimensions_and_embed(m)`: zero columns in the constraints, the lines of the new
+    variables (in front) plus zero columns in the generators (`Linear_System::
+    add_universe_rows_and_space_dimensions`, the NNC epsilon column moved); marked-empty and
+    zero-dimensional receivers included -/
+theorem add_space_dimensions_and_embed_rows_correct (p : Poly) (m : Nat) (ref : RefPoly)
+    (hn : ref.n = p.dim) (hnnc : ref.nnc = p.nnc) (hwf : WF ref.n ref.cs) (hp : p.WF)
+    (hD : p.Denotes (sem ref.cs)) :
+    (p.add_space_dimensions_and_embed m).Denotes (sem (ref.addDimsEmbed m).cs) :=
+  PPLV.PolyOps.add_space_dimensions_and_embed_rows_correct p m ref hn hnnc hwf hp hD
+
+example : (exP.add_space_dimensions_and_embed 2).Denotes (sem (exRef.addDimsEmbed 2).cs) :=
+  add_space_dimensions_and_embed_rows_correct exP 2 exRef rfl rfl exRef_wf exP_wf exP_denotes
+
+/-- `add_space_dimensions_and_project(m)`: the equalities `x_k = 0` in front of the constraints,
+    zero columns in the generators -/
+theorem add_space_dimensions_and_project_rows_correct (p : Poly) (m : Nat) (ref : RefPoly)
+    (hn : ref.n = p.dim) (hnnc : ref.nnc = p.nnc) (hwf : WF ref.n ref.cs) (hp : p.WF)
+    (hD : p.Denotes (sem ref.cs)) :
+    (p.add_space_dimensions_and_project m).Denotes (sem (ref.addDimsProject m).cs) :=
+  PPLV.PolyOps.add_space_dimensions_and_project_rows_correct p m ref hn hnnc hwf hp hD
+
+example : (exP.add_space_dimensions_and_project 2).Denotes (sem (exRef.addDimsProject 2).cs) :=
+  add_space_dimensions_and_project_rows_correct exP 2 exRef rfl rfl exRef_wf exP_wf exP_denotes
+
+/-- `remove_space_dimensions(vars)`: the columns dropped from the generators, all-zero lines and
+    rays removed, rows strongly normalised; constraints flagged out of date; all dimensions removed
+    from a non-empty polyhedron: the zero-dimensional universe -/
+theorem remove_space_dimensions_rows_correct (p q : Poly) (vars : List Nat) (ref : RefPoly)
+    (hn : ref.n = p.dim) (hnnc : ref.nnc = p.nnc) (hwf : WF ref.n ref.cs) (hp : p.WF)
+    (hnd : vars.Nodup) (hlt : ∀ v ∈ vars, v < p.dim)
+    (hD : p.Denotes (sem ref.cs)) (h : p.remove_space_dimensions vars = some q) :
+    q.Denotes (sem (ref.removeDims vars).cs) :=
+  PPLV.PolyOps.remove_space_dimensions_rows_correct p q vars ref hn hnnc hwf hp hnd hlt hD h
+
+example : ∃ q, exP2.remove_space_dimensions [1] = some q ∧ q.Denotes (sem (exRef2.removeDims [1]).cs) := by
+  have h : (exP2.remove_space_dimensions [1]).isSome = true := by decide
+  obtain ⟨q, hq⟩ := Option.isSome_iff_exists.mp h
+  have hlt : ∀ v ∈ [1], v < exP2.dim := by
+    intro v hv; simp at hv; subst hv; decide
+  exact ⟨q, hq, remove_space_dimensions_rows_correct exP2 q [1] exRef2 rfl rfl exRef2_wf exP2_wf (by decide)
+    hlt exP2_denotes hq⟩
+
+/-- `remove_higher_space_dimensions(nd)`: rows truncated and strongly normalised, invalid lines
+    and rays removed -/
+theorem remove_higher_space_dimensions_rows_correct (p q : Poly) (nd : Nat) (ref : RefPoly)
+    (hn : ref.n = p.dim) (hnnc : ref.nnc = p.nnc) (hwf : WF ref.n ref.cs) (hp : p.WF) (hnd : nd ≤ p.dim)
+    (hD : p.Denotes (sem ref.cs)) (h : p.remove_higher_space_dimensions nd = some q) :
+    q.Denotes (sem (ref.removeHigherDims nd).cs) :=
+  PPLV.PolyOps.remove_higher_space_dimensions_rows_correct p q nd ref hn hnnc hwf hp hnd hD h
+
+example : ∃ q, exP2.remove_higher_space_dimensions 1 = some q ∧
+    q.Denotes (sem (exRef2.removeHigherDims 1).cs) := by
+  have h : (exP2.remove_higher_space_dimensions 1).isSome = true := by decide
+  obtain ⟨q, hq⟩ := Option.isSome_iff_exists.mp h
+  exact ⟨q, hq, remove_higher_space_dimensions_rows_correct exP2 q 1 exRef2 rfl rfl exRef2_wf exP2_wf
+    (by decide) exP2_denotes hq⟩
+
+/-- `map_space_dimensions(pfunc)` for a partial injective map onto `{0..N-1}` (`f[j] = pfunc(j)`):
+    the permutation case (columns of BOTH descriptions renamed, rows sign-normalised) and the general
+    case through the generators (lines and rays mapped to the origin dropped; NNC: the closure points
+    of the points added by the constructor) -/
+theorem map_space_dimensions_rows_correct (p q : Poly) (f : List (Option Nat)) (N : Nat) (ref : RefPoly)
+    (hn : ref.n = p.dim) (hnnc : ref.nnc = p.nnc) (hwf : WF ref.n ref.cs) (hp : p.WF)
+    (hlen : f.length = p.dim)
+    (hinj : ∀ j j' k, f.getD j none = some k → f.getD j' none = some k → j = j')
+    (hcod : ∀ j k, f.getD j none = some k → k < N) (hsurj : ∀ k < N, ∃ j, f.getD j none = some k)
+    (hD : p.Denotes (sem ref.cs)) (h : p.map_space_dimensions f = some q) :
+    q.Denotes (sem (ref.mapDims N (mapPairs f)).cs) :=
+  PPLV.PolyOps.map_space_dimensions_rows_correct p q f N ref hn hnnc hwf hp hlen hinj hcod hsurj hD h
+
+/-- the transposition of the two coordinates of `[0,1] × {0}` -/
+example : ∃ q, exP2.map_space_dimensions [some 1, some 0] = some q ∧
+    q.Denotes (sem (exRef2.mapDims 2 (mapPairs [some 1, some 0])).cs) := by
+  have h : (exP2.map_space_dimensions [some 1, some 0]).isSome = true := by decide
+  obtain ⟨q, hq⟩ := Option.isSome_iff_exists.mp h
+  refine ⟨q, hq, map_space_dimensions_rows_correct exP2 q [some 1, some 0] 2 exRef2 rfl rfl exRef2_wf
+    exP2_wf rfl ?_ ?_ ?_ exP2_denotes hq⟩
+  · intro j j' k h1 h2
+    rcases j with _ | _ | j <;> rcases j' with _ | _ | j' <;> simp at h1 h2 <;> omega
+  · intro j k h1
+    rcases j with _ | _ | j <;> simp at h1 <;> omega
+  · intro k hk
+    rcases k with _ | _ | k
+    · exact ⟨1, rfl⟩
+    · exact ⟨0, rfl⟩
+    · omega
+
+/-- `expand_space_dimension(var, m)`: embed, then for every constraint row mentioning `var` the `m`
+    copies with the coefficient moved to a new variable, inserted (pending or not) by
+    `add_recycled_constraints` -/
+theorem expand_space_dimension_rows_correct (p q : Poly) (v m : Nat) (ref : RefPoly)
+    (hn : ref.n = p.dim) (hnnc : ref.nnc = p.nnc) (hwf : WF ref.n ref.cs) (hp : p.WF) (hv : v < p.dim)
+    (hD : p.Denotes (sem ref.cs)) (h : p.expand_space_dimension v m = some q) :
+    q.Denotes (sem (ref.expandDim v m).cs) :=
+  PPLV.PolyOps.expand_space_dimension_rows_correct p q v m ref hn hnnc hwf hp hv hD h
+
+example : ∃ q, exP.expand_space_dimension 0 2 = some q ∧ q.Denotes (sem (exRef.expandDim 0 2).cs) := by
+  have h : (exP.expand_space_dimension 0 2).isSome = true := by decide
+  obtain ⟨q, hq⟩ := Option.isSome_iff_exists.mp h
+  exact ⟨q, hq, expand_space_dimension_rows_correct exP q 0 2 exRef rfl rfl exRef_wf exP_wf (by decide)
+    exP_denotes hq⟩
+
+/-- `concatenate_assign(y)`: the constraints of `y` shifted by `space_dim` and appended (pending
+    when the receiver can have pending rows; then the lines of the new variables join the generators) -/
+theorem concatenate_assign_rows_correct (p y q : Poly) (refx refy : RefPoly)
+    (hnx : refx.n = p.dim) (hny : refy.n = y.dim) (hnncx : refx.nnc = p.nnc) (hnncy : refy.nnc = y.nnc)
+    (hwfx : WF refx.n refx.cs) (hwfy : WF refy.n refy.cs) (hp : p.WF) (hy : y.WF) (hnncxy : y.nnc = p.nnc)
+    (hDx : p.Denotes (sem refx.cs)) (hDy : y.Denotes (sem refy.cs)) (h : p.concatenate_assign y = some q) :
+    q.Denotes (sem (refx.concat refy).cs) :=
+  PPLV.PolyOps.concatenate_assign_rows_correct p y q refx refy hnx hny hnncx hnncy hwfx hwfy hp hy hnncxy
+    hDx hDy h
+
+example : ∃ q, exP2.concatenate_assign exP = some q ∧ q.Denotes (sem (exRef2.concat exRef).cs) := by
+  have h : (exP2.concatenate_assign exP).isSome = true := by decide
+  obtain ⟨q, hq⟩ := Option.isSome_iff_exists.mp h
+  exact ⟨q, hq, concatenate_assign_rows_correct exP2 exP q exRef2 exRef rfl rfl rfl rfl exRef2_wf exRef_wf
+    exP2_wf exP_wf rfl exP2_denotes exP_denotes hq⟩
+
+/-- `fold_space_dimensions(vars, dest)`: for every `i ∈ vars` a copy gets the non-invertible
+    `affine_image(dest, Variable(i))` and is joined in by `poly_hull_assign`; then `vars` is removed.
+    `gs`: any generator list of the receiver's set (`[]` for the empty set); the reference is
+    `RefPoly.foldGens` (C02.fold_space_dimensions_model / _least).  `p.PendOK`: a pair that can have
+    pending rows holds both descriptions, pending generators only on such a pair (`Polyhedron::OK()`). -/
+theorem fold_space_dimensions_rows_correct (p q : Poly) (vars : List Nat) (dest : Nat) (ref : RefPoly)
+    (gs : List Gen) (hn : ref.n = p.dim) (hp : p.WF) (hpo : p.PendOK) (hnd : vars.Nodup)
+    (hlt : ∀ v ∈ vars, v < p.dim) (hdest : dest < p.dim) (hdv : dest ∉ vars)
+    (hw : gensWF p.dim gs = true) (hpt : gs = [] ∨ ∃ g ∈ gs, g.isPt = true)
+    (hD : p.Denotes (GenSem p.dim gs)) (h : p.fold_space_dimensions vars dest = some q) :
+    q.Denotes (sem (RefPoly.foldGens ref vars dest gs).cs) :=
+  PPLV.PolyOps.fold_space_dimensions_rows_correct p q vars dest ref gs hn hp hpo hnd hlt hdest hdv hw hpt hD h
+
+/-- folding `y` into `x` on the point `(1, 2)`: the points `1` and `2` -/
+example : (ex2.fold_space_dimensions [1] 0).map (fun q => (q.dim, q.gs.rows)) =
+    some (1, [⟨false, 1, [1], 0⟩, ⟨false, 1, [2], 0⟩]) := by decide
+
+example : ∃ q, ex2.fold_space_dimensions [1] 0 = some q ∧
+    q.Denotes (sem (RefPoly.foldGens (univ false 2) [1] 0 ex2G).cs) := by
+  have h : (ex2.fold_space_dimensions [1] 0).isSome = true := rfl
+  obtain ⟨q, hq⟩ := Option.isSome_iff_exists.mp h
+  exact ⟨q, hq, fold_space_dimensions_rows_correct ex2 q [1] 0 (univ false 2) ex2G rfl ex2_wf
+    ⟨fun h => by simp [ex2, Status.canPend] at h, fun h => by simp [ex2] at h⟩ (by decide) (by decide)
+    (by decide) (by decide) (by decide) (Or.inr ⟨⟨.point, [1, 2], 1⟩, by simp [ex2G], rfl⟩)
+    ex2_denotes hq⟩
+
+/-! ## lattice operators (Polyhedron_public.cc) -/
+
+/-- `intersection_assign(y)`: the constraint rows of `y` appended — as pending rows when the
+    receiver can have pending rows, merged / inserted otherwise (generators flagged out of date) -/
+theorem intersection_assign_rows_correct (x y q : Poly) (refx refy : RefPoly)
+    (hdim : y.dim = x.dim) (hnnc : y.nnc = x.nnc) (hx : x.WF) (hy : y.WF)
+    (hDx : x.Denotes (sem refx.cs)) (hDy : y.Denotes (sem refy.cs))
+    (h : x.intersection_assign y = some q) :
+    q.Denotes (sem (refx.meet refy).cs) :=
+  PPLV.PolyOps.intersection_assign_rows_correct x y q refx refy hdim hnnc hx hy hDx hDy h
+
+example : ∃ q, exPm.intersection_assign exP = some q ∧ q.Denotes (sem (exRef.meet exRef).cs) := by
+  have h : (exPm.intersection_assign exP).isSome = true := rfl
+  obtain ⟨q, hq⟩ := Option.isSome_iff_exists.mp h
+  exact ⟨q, hq, intersection_assign_rows_correct exPm exP q exRef exRef rfl rfl exPm_wf exP_wf
+    exPm_denotes exP_denotes hq⟩
+
+/-- `poly_hull_assign(y)`: the generator rows of `y` appended (pending / merged / inserted).
+    `gx`, `gy`: any generator lists of the two sets (`[]` for an empty one) -/
+theorem poly_hull_assign_rows_correct (x y q : Poly) (n : Nat) (gx gy : List Gen)
+    (hxn : x.dim = n) (hyn : y.dim = n) (hnnc : y.nnc = x.nnc) (hx : x.WF) (hy : y.WF)
+    (hwx : gensWF n gx = true) (hwy : gensWF n gy = true)
+    (hpx : gx = [] ∨ ∃ g ∈ gx, g.isPt = true) (hpy : gy = [] ∨ ∃ g ∈ gy, g.isPt = true)
+    (hDx : x.Denotes (GenSem n gx)) (hDy : y.Denotes (GenSem n gy))
+    (h : x.poly_hull_assign y = some q) :
+    q.Denotes (GenSem n (hullGens [gx, gy])) :=
+  PPLV.PolyOps.poly_hull_assign_rows_correct x y q n gx gy hxn hyn hnnc hx hy hwx hwy hpx hpy hDx hDy h
+
+example : ∃ q, exPm.poly_hull_assign exP = some q ∧ q.Denotes (GenSem 1 (hullGens [exG, exG])) := by
+  have h : (exPm.poly_hull_assign exP).isSome = true := rfl
+  obtain ⟨q, hq⟩ := Option.isSome_iff_exists.mp h
+  exact ⟨q, hq, poly_hull_assign_rows_correct exPm exP q 1 exG exG rfl rfl rfl exPm_wf exP_wf (by decide)
+    (by decide) (Or.inr ⟨⟨.point, [0], 1⟩, by simp [exG], rfl⟩) (Or.inr ⟨⟨.point, [0], 1⟩, by simp [exG], rfl⟩)
+    exPm_denotesG exP_denotesG hq⟩
+
+/-- `time_elapse_assign(y)`, closed topology: the points of `y` other than the origin become rays,
+    the origin is dropped, lines and rays are kept; appended to the generators of the receiver -/
+theorem time_elapse_assign_rows_correct (x y q : Poly) (n : Nat) (gx gy : List Gen)
+    (hxn : x.dim = n) (hyn : y.dim = n) (hnnc : y.nnc = x.nnc) (hclosed : x.nnc = false)
+    (hx : x.WF) (hy : y.WF) (hwx : gensWF n gx = true) (hwy : gensWF n gy = true)
+    (hpx : ∃ g ∈ gx, g.isPt = true) (hpy : ∃ g ∈ gy, g.isPt = true)
+    (hDx : x.Denotes (GenSem n gx)) (hDy : y.Denotes (GenSem n gy))
+    (h : x.time_elapse_assign y = some q) :
+    q.Denotes (GenSem n (timeElapseGens gx gy)) :=
+  PPLV.PolyOps.time_elapse_assign_rows_correct x y q n gx gy hxn hyn hnnc hclosed hx hy hwx hwy hpx hpy
+    hDx hDy h
+
+example : (exP.time_elapse_assign exPm).map (fun q => q.gs.rows) =
+    some [⟨false, 1, [0], 0⟩, ⟨false, 1, [1], 0⟩, ⟨false, 0, [1], 0⟩] := by decide
+
+example : ∃ q, exP.time_elapse_assign exPm = some q ∧ q.Denotes (GenSem 1 (timeElapseGens exG exG)) := by
+  have h : (exP.time_elapse_assign exPm).isSome = true := rfl
+  obtain ⟨q, hq⟩ := Option.isSome_iff_exists.mp h
+  exact ⟨q, hq, time_elapse_assign_rows_correct exP exPm q 1 exG exG rfl rfl rfl rfl exP_wf exPm_wf
+    (by decide) (by decide) ⟨⟨.point, [0], 1⟩, by simp [exG], rfl⟩ ⟨⟨.point, [0], 1⟩, by simp [exG], rfl⟩
+    exP_denotesG exPm_denotesG hq⟩
+
+/-- `time_elapse_assign(y)`, both topologies.  NNC: the POINTS of `y` are erased ("their role can be
+    played by closure points", Polyhedron_public.cc:3687) and the closure points become rays — this
+    is right exactly because of the invariant `NNCInvW` of NNC generator systems, which `Poly.WF` does
+    not record: every point belongs to the set generated by the closure part of the system (lines,
+    rays, closure points read as points).  It is NOT true that every point has its closure point as
+    a row (`¬ NNCInv exW` in ProofsLattice15.lean; real minimized systems violate that in ≈ 8 % of the
+    cases); the driver decides `NNCInvW` on every real NNC argument with K1. -/
+theorem time_elapse_assign_rows_correct_nnc (x y q : Poly) (n : Nat) (gx gy : List Gen)
+    (hxn : x.dim = n) (hyn : y.dim = n) (hnnc : y.nnc = x.nnc) (hx : x.WF) (hy : y.WF)
+    (hwx : gensWF n gx = true) (hwy : gensWF n gy = true)
+    (hpx : ∃ g ∈ gx, g.isPt = true) (hpy : ∃ g ∈ gy, g.isPt = true)
+    (hinv : x.nnc = true → NNCInvW n y.gs.rows)
+    (hDx : x.Denotes (GenSem n gx)) (hDy : y.Denotes (GenSem n gy))
+    (h : x.time_elapse_assign y = some q) :
+    q.Denotes (GenSem n (timeElapseGens gx gy)) :=
+  PPLV.PolyOps.time_elapse_assign_rows_correct_nnc x y q n gx gy hxn hyn hnnc hx hy hwx hwy hpx hpy hinv
+    hDx hDy h
+
+/-- closure point 3, point 2, point -2, closure point -2 (`exW`): `NNCInvW 1 exW` holds although the
+    point 2 has no closure-point row (both proved as examples in ProofsLattice15.lean); its closure part: -/
+example : closurePart exW = [⟨.point, [3], 1⟩, ⟨.point, [-2], 1⟩] := by decide
+
+/-- either argument marked empty: the result is empty (`timeElapseGens gx []` would be `gx`) -/
+theorem time_elapse_assign_rows_empty (x y q : Poly) (he : x.st.empty = true ∨ y.st.empty = true)
+    (h : x.time_elapse_assign y = some q) : q.Denotes ∅ :=
+  PPLV.PolyOps.time_elapse_assign_rows_empty x y q he h
+
+example : ∃ q, exP.time_elapse_assign exP.setEmpty = some q ∧ q.Denotes ∅ := by
+  have h : (exP.time_elapse_assign exP.setEmpty).isSome = true := rfl
+  obtain ⟨q, hq⟩ := Option.isSome_iff_exists.mp h
+  exact ⟨q, hq, time_elapse_assign_rows_empty exP exP.setEmpty q (Or.inr rfl) hq⟩
+
+/-- `topological_closure_assign()`: the constraint path (strict rows that are not tautologies lose
+    their epsilon coefficient, `ε ≤ 1` is inserted) and the generator path
+    (`add_corresponding_points`: every closure point gets its point) both denote the closure -/
+theorem topological_closure_assign_rows_correct (p q : Poly) (ref : RefPoly)
+    (hn : ref.n = p.dim) (hwf : WF ref.n ref.cs) (hp : p.WF)
+    (hD : p.Denotes (sem ref.cs)) (h : p.topological_closure_assign = some q) :
+    q.Denotes (sem ref.closure.cs) :=
+  topological_closure_assign_rows_correct_full p q ref hn hwf hp hD h
+
+/-- the half-open segment `0 < x ≤ 1` held by its generators only: the generator path -/
+example : ∃ q, exNg.topological_closure_assign = some q ∧ q.Denotes (sem exNRef.closure.cs) := by
+  have h : (exNg.topological_closure_assign).isSome = true := rfl
+  obtain ⟨q, hq⟩ := Option.isSome_iff_exists.mp h
+  exact ⟨q, hq, topological_closure_assign_rows_correct exNg q exNRef rfl exNRef_wf exNg_wf exNg_denotes hq⟩
+
+/-- `unconstrain(vars)`: the lines of the variables appended to the generators (pending or not) -/
+theorem unconstrain_rows_correct (p q : Poly) (vars : List Nat) (ref : RefPoly)
+    (hn : ref.n = p.dim) (hwf : WF ref.n ref.cs) (hp : p.WF) (hvars : ∀ v ∈ vars, v < p.dim)
+    (hD : p.Denotes (sem ref.cs)) (h : p.unconstrain vars = some q) :
+    q.Denotes (sem (ref.unconstrain vars).cs) :=
+  PPLV.PolyOps.unconstrain_rows_correct p q vars ref hn hwf hp hvars hD h
+
+example : ∃ q, exPm.unconstrain [0] = some q ∧ q.Denotes (sem (exRef.unconstrain [0]).cs) := by
+  have h : (exPm.unconstrain [0]).isSome = true := rfl
+  obtain ⟨q, hq⟩ := Option.isSome_iff_exists.mp h
+  exact ⟨q, hq, unconstrain_rows_correct exPm q [0] exRef rfl exRef_wf exPm_wf
+    (by intro v hv; simp at hv; subst hv; decide) exPm_denotes hq⟩
+
+/-- `generalized_affine_image(var, relsym, expr, den)` as implemented for `≤ = ≥`: `affine_image`,
+    then the ray `∓var` added by `add_generator` (pending or not); for the strict symbols the model
+    has a result only when the image is marked empty (otherwise the code calls `minimize()` in the
+    middle: conversion, not modelled) -/
+theorem generalized_affine_image_rows_correct (p q : Poly) (v : Nat) (r : Rel) (e : LinExpr) (den : Int)
+    (ref : RefPoly) (hn : ref.n = p.dim) (hnnc : ref.nnc = p.nnc) (hwf : WF ref.n ref.cs) (hp : p.WF)
+    (hv : v < p.dim) (he : e.coeffs.length = p.dim) (hden : den ≠ 0)
+    (hD : p.Denotes (sem ref.cs)) (h : p.generalized_affine_image v r e den = some q) :
+    q.Denotes (sem (ref.genAffineImage v r e den).cs) :=
+  PPLV.PolyOps.generalized_affine_image_rows_correct p q v r e den ref hn hnnc hwf hp hv he hden hD h
+
+example : ∃ q, exPm.generalized_affine_image 0 .ge exE (-1) = some q ∧
+    q.Denotes (sem (exRef.genAffineImage 0 .ge exE (-1)).cs) := by
+  have h : (exPm.generalized_affine_image 0 .ge exE (-1)).isSome = true := rfl
+  obtain ⟨q, hq⟩ := Option.isSome_iff_exists.mp h
+  exact ⟨q, hq, generalized_affine_image_rows_correct exPm q 0 .ge exE (-1) exRef rfl rfl exRef_wf
+    exPm_wf (by decide) rfl (by decide) exPm_denotes hq⟩
 
 end C02
